@@ -49,7 +49,7 @@ func hxs(s string) string { return hx([]byte(s)) }
 // ---------------------------------------------------------------- running a session in a child
 
 func runSession(s *Session) {
-	in, _ := json.Marshal(Session{API: s.API, Mode: s.Mode, Items: s.Items, TmpDir: s.TmpDir, Controllers: s.Controllers, GapUs: s.GapUs})
+	in, _ := json.Marshal(Session{API: s.API, Mode: s.Mode, Items: s.Items, TmpDir: s.TmpDir, Controllers: s.Controllers, GapUs: s.GapUs, Fifos: s.Fifos, LogLevel: s.LogLevel, Headers: s.Headers, ViaStream: s.ViaStream})
 	if s.TmpDir != "" {
 		defer os.RemoveAll(s.TmpDir)
 	}
@@ -350,7 +350,7 @@ func oracle(s Session, idx int, res *lib.Result) {
 			what = what[:300] + "..."
 		}
 		res.Violate(lib.Violation{Clause: clause, Case: idx, Replay: s, Key: clause + ":" + keyFamily(it),
-			Detail: fmt.Sprintf("session mode=%s api=%q item %d: %s -> %s", s.Mode, s.API, i, what, detail)})
+			Detail: fmt.Sprintf("session mode=%s api=%q%s item %d: %s -> %s", s.Mode, s.API, s.dims(), i, what, detail)})
 	}
 	prevKnown := true
 	for i, it := range s.Items {
@@ -382,6 +382,15 @@ func oracle(s Session, idx int, res *lib.Result) {
 			continue
 		}
 		d := decodeCmd(it.Msg)
+		if i == 0 && s.API != "" && o.Dests != nil && !o.NoSnap && it.Kind == "cmd" && !(d.OK && d.Cmd.What == "destination" && (d.Cmd.Verb == "add" || d.Cmd.Verb == "delete")) {
+			// the first reading of the tables: the host must have started with the control rule for the configured
+			// destination, exactly as configured
+			if o.Dests["apiRule"] != cfg {
+				bad(i, "api-rule-changed", fmt.Sprintf("the host was configured with the control destination %q but its rule apiRule is %v", s.API, o.Dests["apiRule"]))
+				prev = o
+				continue
+			}
+		}
 		switch {
 		case o.Exit:
 			bad(i, "process-exit", "the host process ended: "+firstLine(o.StderrEnd))
@@ -655,6 +664,24 @@ func pipeView(s Session, idx int, res *lib.Result) Session {
 	return view
 }
 
+// dims: the standing dimensions of a session, for reports
+func (s Session) dims() string {
+	d := ""
+	if s.ViaStream {
+		d += " started through vw.Stream() (VW_API from the environment)"
+	}
+	if s.LogLevel != "" {
+		d += " log level " + s.LogLevel
+	}
+	if s.Headers {
+		d += " odd request headers"
+	}
+	if len(s.Fifos) > 0 {
+		d += " recording file is a named pipe without reader"
+	}
+	return d
+}
+
 // keyFamily is the stable part of a violation key: verb/what of the command as the host decodes it (or the
 // generator's family for bytes that do not decode), method and route for HTTP requests.
 func keyFamily(it Item) string {
@@ -760,6 +787,18 @@ func main() {
 			coq[i] = s.coq()
 		}
 		res.Count("sessions:" + orig.Mode)
+		if orig.LogLevel != "" {
+			res.Count("sessions:log-level-" + orig.LogLevel)
+		}
+		if orig.Headers {
+			res.Count("sessions:odd-request-headers")
+		}
+		if orig.ViaStream {
+			res.Count("sessions:started-through-vw.Stream")
+		}
+		if len(orig.Fifos) > 0 {
+			res.Count("sessions:recording-file-is-a-fifo-without-reader")
+		}
 		if s.API == "" {
 			res.Count("sessions:no-control-connection")
 		}
